@@ -781,6 +781,10 @@ func File(errBuf *strings.Builder, validName, objName, fieldName string, tv refl
 	valStr := tv.String()
 	isDir, err := dir(valStr)
 	if err != nil {
+		if _, _, cusMsg := ParseValidNameKV(validName); cusMsg != "" {
+			errBuf.WriteString(GetJoinValidErrStr(objName, fieldName, valStr, cusMsg))
+			return
+		}
 		errBuf.WriteString(GetJoinValidErrStr(objName, fieldName, valStr, err.Error()))
 		return
 	}
@@ -804,6 +808,10 @@ func Dir(errBuf *strings.Builder, validName, objName, fieldName string, tv refle
 	valStr := tv.String()
 	isDir, err := dir(valStr)
 	if err != nil {
+		if _, _, cusMsg := ParseValidNameKV(validName); cusMsg != "" {
+			errBuf.WriteString(GetJoinValidErrStr(objName, fieldName, valStr, cusMsg))
+			return
+		}
 		errBuf.WriteString(GetJoinValidErrStr(objName, fieldName, valStr, err.Error()))
 		return
 	}
